@@ -176,13 +176,15 @@ def build(net, description="vv generated", with_metadata=True):
     iv = _vec(b, SubGraph.SubGraphStartInputsVector, [tidx[i] for i in inputs], b.PrependInt32)
     ov = _vec(b, SubGraph.SubGraphStartOutputsVector, [tidx[i] for i in outputs], b.PrependInt32)
     opv = _vec(b, SubGraph.SubGraphStartOperatorsVector, ooffs, b.PrependUOffsetTRelative)
-    nm = b.CreateString("main")
+    sg_name = getattr(net, "sg_name", "main")  # None: the (optional) subgraph name is left out
+    nm = b.CreateString(sg_name) if sg_name is not None else None
     SubGraph.SubGraphStart(b)
     SubGraph.SubGraphAddTensors(b, tv)
     SubGraph.SubGraphAddInputs(b, iv)
     SubGraph.SubGraphAddOutputs(b, ov)
     SubGraph.SubGraphAddOperators(b, opv)
-    SubGraph.SubGraphAddName(b, nm)
+    if nm is not None:
+        SubGraph.SubGraphAddName(b, nm)
     sg = SubGraph.SubGraphEnd(b)
     coffs = []
     for code, ver, cc in codes:
